@@ -87,6 +87,11 @@ pub const OPS: &[&str] = &[
     // of a self-tail-recursive loop (one binding per round)
     "(define zs (let* ((z 0) (getz (lambda () z)) (z 10)) (set! z (+ z 1)) (list getz (lambda () z))))",
     "(define ks (collect 3 '()))",
+    // assignments whose new value looks like the old one and is another object: a vector with the
+    // same contents, a new closure of the same lambda, the same number with the other exactness
+    "(set! v1 v2)",
+    "(set! c1 (g1))",
+    "(set! u 1.0)",
 ];
 
 /// destructive probes, run after the canonical state has been taken
